@@ -185,13 +185,16 @@ private:
 //! fold the tree and deallocate the task
 template<typename Range, typename Body, typename Partitioner>
 void start_reduce<Range, Body, Partitioner>::finalize(const execution_data& ed) {
-    // Get the current parent and wait object before an object destruction
-    node* parent = my_parent;
+    // Unwind the tree decrementing the parent`s reference count. Body::join() is user code and may throw:
+    // the task is destroyed only afterwards, so that cancel() can finalize it after such an exception
+    wait_node* root = fold_tree_to_root<tree_node_type>(my_parent, ed);
     auto allocator = my_allocator;
     // Task execution finished - destroy it
     this->~start_reduce();
-    // Unwind the tree decrementing the parent`s reference count
-    fold_tree<tree_node_type>(parent, ed);
+    // Finish parallel reduce execution when the root (last node) is reached
+    if (root) {
+        root->m_wait.release();
+    }
     allocator.deallocate(this, ed);
 }
 
@@ -327,14 +330,16 @@ private:
 //! Fold the tree and deallocate the task
 template<typename Range, typename Body, typename Partitioner>
 void start_deterministic_reduce<Range, Body, Partitioner>::finalize(const execution_data& ed) {
-    // Get the current parent and wait object before an object destruction
-    node* parent = my_parent;
-
+    // Unwind the tree decrementing the parent`s reference count. Body::join() is user code and may throw:
+    // the task is destroyed only afterwards, so that cancel() can finalize it after such an exception
+    wait_node* root = fold_tree_to_root<tree_node_type>(my_parent, ed);
     auto allocator = my_allocator;
     // Task execution finished - destroy it
     this->~start_deterministic_reduce();
-    // Unwind the tree decrementing the parent`s reference count
-    fold_tree<tree_node_type>(parent, ed);
+    // Finish parallel reduce execution when the root (last node) is reached
+    if (root) {
+        root->m_wait.release();
+    }
     allocator.deallocate(this, ed);
 }
 
